@@ -45,6 +45,10 @@ pub struct Case {
     /// 2 = 1, 2, 1, 2, ...; 3 = descending; 4 = u64::MAX downwards
     #[serde(default)]
     pub id_style: u8,
+    /// optional fields that are absent are LEFT OUT of the JSON (instead of written as null), and every record
+    /// carries a key the schema does not know ("notes")
+    #[serde(default)]
+    pub sparse_json: bool,
 }
 
 fn hash32(seed: u64, salt: u64) -> String {
@@ -108,7 +112,7 @@ impl Scenario for Ribbit {
         "exploration"
     }
     fn rule(&self) -> &'static str {
-        "Per run: a generated build database of 1-6 records (record ids unique or - one database in five - repeating / descending / near u64::MAX; one database in ten with one build_time string for all records; product names command-safe, one database in twenty with a LONG one - 200 to 4000 bytes, among them lengths that put the TCP request line just below / at / above 1 KiB; version/build/keyring/cdn_path strings from the classes plain, digits, leading zeros, with '|', with '#', with spaces, with CR/LF, non-ASCII, 1 KiB long, look-alikes of the wire framing (MIME boundary, Checksum line, BPSV type marker, seqn line), non-numeric build, non-hex keyring; several builds per product with RFC 3339 timestamps in varying offsets and precisions incl. exact ties) is written to the sandbox and loaded by the REAL server state; databases the server rejects are vacuous. The real TCP accept loop + handle_connection run on the simulated listener and the real axum Router is driven in-process; 1-5 clients start concurrently at seeded virtual times: well-formed requests through the real RibbitClient (TCP v1 with MIME + checksum verification, TCP v2) and real TactClient (HTTP), and malformed ones (unknown product/version, wrong arity, empty line, 64 KiB line, non-UTF-8, never terminated, one byte per virtual second, connect-and-close) over raw simulated connections. Oracle: every row's typed fields equal the record with the chronologically newest build_time of that product; malformed requests end in an error reply or a closed connection within 10 virtual minutes (the server's own read time-out is 10 s; the bound is generous because that time-out is tuning, not part of the property); no task panics; after the last malformed client has started a fresh well-formed request is answered correctly within 3 virtual seconds (a server that serialises connections behind a stalled client takes its whole read time-out). Non-trivial = >= 2 clients; distinct = hash of (case, outcomes)."
+        "Per run: a generated build database of 1-6 records (shapes: dates in March 2024 or - one database in five - across 1999 ... 9999 and all months; build numbers now and then 0 / 2^31-1 / 2^31 / 2^32-1; one database in ten with two products whose names differ only in case, a trailing '_' or '.classic'; one in thirty with one product of 300-800 builds, one in thirty with 120-300 products (summary of tens of KiB); one in five written with absent optional fields left out and an unknown key; record ids unique or - one database in five - repeating / descending / near u64::MAX; one database in ten with one build_time string for all records; product names command-safe, one database in twenty with a LONG one - 200 to 4000 bytes, among them lengths that put the TCP request line just below / at / above 1 KiB; version/build/keyring/cdn_path strings from the classes plain, digits, leading zeros, with '|', with '#', with spaces, with CR/LF, non-ASCII, 1 KiB long, look-alikes of the wire framing (MIME boundary, Checksum line, BPSV type marker, seqn line), non-numeric build, non-hex keyring; several builds per product with RFC 3339 timestamps in varying offsets and precisions incl. exact ties) is written to the sandbox and loaded by the REAL server state; databases the server rejects are vacuous. The real TCP accept loop + handle_connection run on the simulated listener and the real axum Router is driven in-process; 1-5 clients start concurrently at seeded virtual times: well-formed requests through the real RibbitClient (TCP v1 with MIME + checksum verification, TCP v2) and real TactClient (HTTP), and malformed ones (unknown product/version, wrong arity, empty line, 64 KiB line, non-UTF-8, never terminated, one byte per virtual second, connect-and-close) over raw simulated connections. Oracle: every row's typed fields equal the record with the chronologically newest build_time of that product; malformed requests end in an error reply or a closed connection within 10 virtual minutes (the server's own read time-out is 10 s; the bound is generous because that time-out is tuning, not part of the property); no task panics; after the last malformed client has started a fresh well-formed request is answered correctly within 3 virtual seconds (a server that serialises connections behind a stalled client takes its whole read time-out). Non-trivial = >= 2 clients; distinct = hash of (case, outcomes)."
     }
     fn assumptions(&self) -> Vec<&'static str> {
         vec![
@@ -258,7 +262,74 @@ impl Scenario for Ribbit {
                 r.build_time = t.clone();
             }
         }
-        Case { db, clients, seg, net_seed, id_style }
+        // ---- shape of the database, drawn after everything else ----
+        let mut clients = clients;
+        let mut seg = seg;
+        // dates across years and months instead of a few days of March 2024 (one database in five)
+        if rng.chance(1, 5) {
+            for r in db.iter_mut() {
+                if r.build_time.len() >= 10 {
+                    let y = *rng.pick(&[1999u32, 2019, 2024, 2024, 2025, 2038, 9999]);
+                    r.build_time = format!("{y:04}-{:02}-{:02}{}", rng.range(1, 12), rng.range(1, 28), &r.build_time[10..]);
+                }
+            }
+        }
+        // build numbers at the edges of what the DEC:4 column and the validator take (one record in twenty)
+        for r in db.iter_mut() {
+            if rng.chance(1, 20) {
+                r.build = (*rng.pick(&["0", "1", "2147483647", "2147483648", "4294967295"])).to_string();
+            }
+        }
+        // two products whose names differ only in case, by one trailing character, or by a dot (one in ten)
+        if rng.chance(1, 10) {
+            let names: Vec<String> = { let mut v: Vec<String> = db.iter().map(|r| r.product.clone()).collect(); v.sort(); v.dedup(); v };
+            if names.len() == 2 && names[0].len() < 100 {
+                let twin = match rng.below(3) { 0 => names[0].to_uppercase(), 1 => format!("{}_", names[0]), _ => format!("{}.classic", names[0]) };
+                if twin != names[0] {
+                    for r in db.iter_mut().filter(|r| r.product == names[1]) {
+                        r.product = twin.clone();
+                    }
+                    for c in clients.iter_mut() {
+                        if let Client::Good { product, .. } = c {
+                            if *product == names[1] {
+                                *product = twin.clone();
+                            }
+                        }
+                    }
+                }
+            }
+        }
+        // one product with hundreds of builds (one database in thirty), or hundreds of products with one build each
+        // (one in thirty): answers and the summary then run to tens of KiB - never cut into single bytes
+        match rng.below(30) {
+            0 if !db.is_empty() => {
+                let proto = db[0].clone();
+                for j in 0..rng.range(300, 800) {
+                    let mut r = proto.clone();
+                    r.build_time = format!("2023-{:02}-{:02}T{:02}:{:02}:{:02}+00:00", rng.range(1, 12), rng.range(1, 28), rng.below(24), rng.below(60), rng.below(60));
+                    r.version = format!("0.{j}.0.1");
+                    r.hseed = rng.next_u64();
+                    db.push(r);
+                }
+            }
+            1 if !db.is_empty() => {
+                let proto = db[0].clone();
+                for j in 0..rng.range(120, 300) {
+                    let mut r = proto.clone();
+                    r.product = format!("bulk_product_{j:03}");
+                    r.hseed = rng.next_u64();
+                    db.push(r);
+                }
+                clients.push(Client::Good { transport: (*rng.pick(&["tcp1", "tcp2"])).to_string(), product: "bulk_product_007".into(), endpoint: "summary".into(), delay_ms: 5 });
+                clients.push(Client::Good { transport: (*rng.pick(&["tcp1", "tcp2", "http"])).to_string(), product: "bulk_product_119".into(), endpoint: "versions".into(), delay_ms: 9 });
+            }
+            _ => {}
+        }
+        if db.len() > 50 && seg == "bytes1" {
+            seg = "random".into();
+        }
+        let sparse_json = rng.chance(1, 5);
+        Case { db, clients, seg, net_seed, id_style, sparse_json }
     }
 
     fn execute(&self, case: &Case, ctx: &mut Ctx) -> Option<Violation> {
@@ -350,12 +421,19 @@ async fn run(case: &Case, ctx: &mut Ctx) -> Option<Violation> {
         .map(|(i, r)| {
             // hex columns are compared as bytes, so the case the operator used must not matter
             let up = |h: String| if r.hseed % 5 == 0 { h.to_uppercase() } else { h };
-            json!({
+            let mut v = json!({
                 "id": match case.id_style { 1 => 7, 2 => (i as u64 % 2) + 1, 3 => (case.db.len() - i) as u64, 4 => u64::MAX - i as u64, _ => i as u64 + 1 }, "product": r.product, "version": r.version, "build": r.build,
                 "build_config": up(hash32(r.hseed, 11)), "cdn_config": up(hash32(r.hseed, 12)), "keyring": r.keyring.clone().map(&up), "product_config": r.product_config.clone().map(&up),
                 "build_time": r.build_time, "encoding_ekey": hash32(r.hseed, 13), "root_ekey": hash32(r.hseed, 14),
                 "install_ekey": hash32(r.hseed, 15), "download_ekey": hash32(r.hseed, 16), "cdn_path": r.cdn_path
-            })
+            });
+            if case.sparse_json {
+                if let Some(o) = v.as_object_mut() {
+                    o.retain(|_, x| !x.is_null());
+                    o.insert("notes".into(), json!("imported"));
+                }
+            }
+            v
         })
         .collect();
     let dbfile = ctx.root.join("builds.json");
